@@ -202,8 +202,7 @@ def run(spec, tier, seed, replay_path=None):
     drift = C.facts_drift(facts, spec.anchors)
     ctx["facts"] = facts
     budget_tier = tier
-    if drift["changed_functions"] or drift["changed_constants"]:
-        budget_tier = "thorough"  # anchored source changed: spend the thorough L2/L3 budget on this run
+    drifted = bool(drift["changed_functions"] or drift["changed_constants"])
 
     # ---- L1
     l1 = C.lean_obligations(pid, thorough=(tier == "thorough"), exe=spec.driver)
@@ -241,6 +240,22 @@ def run(spec, tier, seed, replay_path=None):
                               "signature": "crash-or-hang", "what": "the real code crashed the process or did not return on this case"})
             if ex["driver_rc"] != 0:
                 ctx["broken"].append({"layer": "L2", "what": "driver failed rc=%s: %s" % (ex["driver_rc"], ex["driver_err"])})
+            if mism:
+                ctx["broken"].append({"layer": "L2", "what": "correspondence %s: %d of %d lines differ between implementation and model" % (spec.harness, len(mism), n),
+                                      "first": mism[:5]})
+            ctx["concrete"] += fails
+    # anchored source changed and the routine budget found nothing: spend the thorough L2/L3 budget on this run
+    if drifted and tier == "quick" and ex is not None and "build_error" not in ex and not ctx["broken"] and not ctx["concrete"]:
+        budget_tier = "thorough"
+        ex = execute(spec, rundir, "thorough", seed)
+        if "build_error" not in ex:
+            n0 = n
+            mism, fails, nontriv, n = analyse(spec, ex)
+            n += 0
+            if ex["harness_rc"] != 0:
+                last = ex["script"][-1] if ex["script"] else "<none>"
+                fails.append({"line": len(ex["script"]), "script": last, "impl": "<harness died/hung rc=%s> %s" % (ex["harness_rc"], ex["harness_err"][-600:]),
+                              "model": "-", "signature": "crash-or-hang", "what": "the real code crashed the process or did not return on this case"})
             if mism:
                 ctx["broken"].append({"layer": "L2", "what": "correspondence %s: %d of %d lines differ between implementation and model" % (spec.harness, len(mism), n),
                                       "first": mism[:5]})
